@@ -29,10 +29,10 @@ def run(ctx):
     go_bin = goharness.ext_test_build(ctx, "naming")
 
     # ---- 1. TLC: laws + expected verdicts -------------------------------------------------------
-    xnames = N.extra_names(rnd, ctx.pick(3000, 40000))
-    xtags = N.extra_tags(rnd, ctx.pick(1500, 30000))
+    xnames = N.extra_names(rnd, ctx.pick(3000, 20000))
+    xtags = N.extra_tags(rnd, ctx.pick(1500, 15000))
     fd = ctx.subdir("naming_inputs")
-    nfile = ctx.pick(1, 8)
+    nfile = ctx.pick(1, 6)
     parts = [("plain", "plain", None)]
     if ctx.quick:
         parts += [("tags", "tags", None), ("rle", "rle", None)]
